@@ -20,22 +20,24 @@ MCSlots == {"top", "funcdoc", "aboveA", "trailA", "aboveB", "trailB", "belowB", 
             "aboveM", "aboveN", "trailN", "aboveD", "trailD", "aboveH"}
 MCAttach == [ s \in MCSlots |->
   CASE s = "top" -> 2 [] s = "funcdoc" -> 5 [] s = "aboveA" -> 7 [] s = "trailA" -> 8
-    [] s = "aboveB" -> 11 [] s = "trailB" -> 11 [] s = "belowB" -> 11
-    [] s = "aboveC" -> 15 [] s = "trailC" -> 16 [] s = "aboveM" -> 19
-    [] s = "aboveN" -> 23 [] s = "trailN" -> 23 [] s = "aboveD" -> 30 [] s = "trailD" -> 30
-    [] s = "aboveH" -> 33 ]
+    [] s = "aboveB" -> 12 [] s = "trailB" -> 12 [] s = "belowB" -> 12
+    [] s = "aboveC" -> 17 [] s = "trailC" -> 18 [] s = "aboveM" -> 21
+    [] s = "aboveN" -> 26 [] s = "trailN" -> 26 [] s = "aboveD" -> 33 [] s = "trailD" -> 33
+    [] s = "aboveH" -> 36 ]
+\* the comments in aboveB, aboveC and aboveN open a comment group of two lines (the directive, then a
+\* continuation line); the directive is the first line of the group
 MCOwnLine == [ s \in MCSlots |->
   CASE s = "top" -> 1 [] s = "funcdoc" -> 4 [] s = "aboveA" -> 6 [] s = "trailA" -> 7
-    [] s = "aboveB" -> 10 [] s = "trailB" -> 11 [] s = "belowB" -> 12
-    [] s = "aboveC" -> 14 [] s = "trailC" -> 15 [] s = "aboveM" -> 18
-    [] s = "aboveN" -> 22 [] s = "trailN" -> 23 [] s = "aboveD" -> 29 [] s = "trailD" -> 30
-    [] s = "aboveH" -> 32 ]
+    [] s = "aboveB" -> 10 [] s = "trailB" -> 12 [] s = "belowB" -> 13
+    [] s = "aboveC" -> 15 [] s = "trailC" -> 17 [] s = "aboveM" -> 20
+    [] s = "aboveN" -> 24 [] s = "trailN" -> 26 [] s = "aboveD" -> 32 [] s = "trailD" -> 33
+    [] s = "aboveH" -> 35 ]
 
 Pr(l, c) == [line |-> l, check |-> c]
-MCProblems == { Pr(7, S1002), Pr(7, SA4000), Pr(11, SA4000), Pr(15, ST1017), Pr(20, SA4000),
-                Pr(30, MCU1000), Pr(33, MCU1000) }
-\* func unused (line 30) calls func helper (line 33); nothing else uses either
-MCObjects == { [line |-> 30, uses |-> {33}], [line |-> 33, uses |-> {}] }
+MCProblems == { Pr(7, S1002), Pr(7, SA4000), Pr(12, SA4000), Pr(17, ST1017), Pr(22, SA4000),
+                Pr(33, MCU1000), Pr(36, MCU1000) }
+\* func unused (line 33) calls func helper (line 36); nothing else uses either
+MCObjects == { [line |-> 33, uses |-> {36}], [line |-> 36, uses |-> {}] }
 
 \* name lists: exact, wrong case, globs, other enabled check, disabled check, U1000, mixtures in both orders
 Lower4000 == <<"s","a","4","0","0","0">>
